@@ -393,9 +393,9 @@ func handleUIDCopy(deps ServerDeps, conn net.Conn, tag string, parts []string, s
 	// Get next UID for destination mailbox
 	var nextUID int64
 	err = tx.QueryRow(`
-		SELECT COALESCE(MAX(uid), 0) + 1
-		FROM message_mailbox
-		WHERE mailbox_id = ?
+		SELECT uid_next
+		FROM mailboxes
+		WHERE id = ?
 	`, destMailboxID).Scan(&nextUID)
 
 	if err != nil {
@@ -441,6 +441,13 @@ func handleUIDCopy(deps ServerDeps, conn net.Conn, tag string, parts []string, s
 		}
 
 		nextUID++
+	}
+
+	// Record the UIDs handed out so that the next message added to the destination continues after them
+	_, err = tx.Exec(`UPDATE mailboxes SET uid_next = ? WHERE id = ?`, nextUID, destMailboxID)
+	if err != nil {
+		deps.SendResponse(conn, fmt.Sprintf("%s NO UID COPY failed: %v", tag, err))
+		return
 	}
 
 	// Commit transaction
